@@ -9,6 +9,9 @@ from vf.ref import tx_ref as TR
 from vf.runner import Acc, filler
 
 PROPERTY = "C15"
+CONCUR_FILES = ('bits/blockchain.py', 'bits/tx.py', 'bits/utils.py')
+# (thread a, thread b), warm-up: indices into seq_ops() - the ordinary single-case checks run concurrently (vf/concur.py)
+CONCUR_SCEN = [((3, 4), ()), ((3, 3), (1,)), ((8, 9), (7,)), ((5, 12), (10,))]
 LEVEL = "exploration"
 RULE = ("merkle: EVERY list length 1..300 (thorough 1..2048) with distinct ids and with all-equal ids (the tree shape depends "
         "only on the length); coinbase: EVERY height 0..70000 on both halving schedules with default arguments, and the full "
@@ -19,6 +22,7 @@ RULE = ("merkle: EVERY list length 1..300 (thorough 1..2048) with distinct ids a
 ASSUMPTIONS = ["vf/ref/merkle_ref.py (recursive merkle, validated on mainnet blocks 170 and 100000), vf/ref/script_ref.py CScriptNum, "
                "vf/ref/tx_ref.py parser"]
 OBLIGATIONS = {
+    "concurrent_calls": "interleavings of two concurrent calls (single-case checks in two threads, cold and after warm-up calls)",
     "history_sequences": "operation sequences (non-initial process states) explored",
     "merkle_odd_above_leaves": "a list length whose tree has an odd level above the leaves (5, 6, 9..)",
     "height_0": "height 0", "height_le_16": "a height 1..16 (OP_n form)", "height_sign_pad": "a height whose top bit needs a sign byte (128, 32768..)",
@@ -159,6 +163,9 @@ CASES = {"merkle": chk_merkle, "coinbase": chk_coinbase, "block": chk_block}
 
 
 def run_case(kind, case):
+    if kind == "concurcase":
+        from vf import concur
+        return concur.replay_cases(run_case, PROPERTY, case, CONCUR_FILES)
     if kind == "seq":
         from vf import seqexplore
         return seqexplore.replay(run_case, case)
@@ -196,10 +203,17 @@ def jobs(tier, seed):
     js.append({"name": "block", "part": "block", "weight": 4})
     from vf.runner import seq_jobs
     js += seq_jobs(3, weight=2)
+    from vf.runner import concur_jobs
+    js += concur_jobs(len(CONCUR_SCEN))
     return js
 
 
 def run_job(job):
+    if job["part"] == "concurcase":
+        from vf.runner import run_concur_job
+        ops = seq_ops(dict(job, shard=[0, 1]))
+        scens = [{"threads": [ops[i] for i in th], "warm": [ops[i] for i in wm]} for th, wm in CONCUR_SCEN]
+        return run_concur_job(job, scens, run_case, PROPERTY, CONCUR_FILES)
     if job["part"] == "seq":
         from vf.runner import run_seq_job
         return run_seq_job(job, seq_ops(job), run_case)
